@@ -26,7 +26,7 @@ CHECKS = {
          "property-based testing over a constructed settings lattice; oracle = view-vector equality + independent policy-containment model",
          "Pairs of HandshakeSettings restrictions (versions, ciphers, MACs, key exchanges, groups, signature lists, key-size windows, EtM/EMS, record_size_limit) x flavour (11 server key types, SRP, SRP+cert, anon) "
          "x client auth x ALPN/NPN/SNI are constructed with drawn relations (equal/nested/independent); completed handshakes must yield identical view vectors (version, suite, secrets, exporter output, EMS, EtM, ALPN/NPN, SNI, chains, SRP user) "
-         "and every negotiated parameter must lie in both raw policies per an independent model using the IANA table; failed handshakes must fail with an alert on at least one side and never one-sidedly complete.",
+         "and every negotiated parameter must lie in both raw policies per an independent model using the IANA table - also on a second connection that offers the first one's session after one side's policy was narrowed; failed handshakes must fail with an alert on at least one side and never one-sidedly complete.",
          "own credential type enabled in own settings (caller precondition); settings.versions never set directly; private _send/_recv_record_limit attributes read for the record-limit agreement",
          "DESIGN.md §4 C03"),
  "C04": ("fault_enumeration",
@@ -57,7 +57,7 @@ CHECKS = {
          "OpenSSL randomness not seedable (configuration is the replay unit); SSLv3, SRP, external PSK, KeyUpdate, record_size_limit, heartbeat, anon and TLS 1.3 CCM suites are outside what the stdlib API reaches",
          "DESIGN.md §4 C07"),
  "C08": ("exploration",
-         "structure-aware mutation fuzzing through a well-keyed deviant peer + Hypothesis byte-level targets; oracle = exception-type / alert / closed / non-resumable / no-spin / bounded-memory clauses",
+         "structure-aware mutation fuzzing through a well-keyed deviant peer + Hypothesis byte-level targets + coverage-guided fuzzing (atheris/libFuzzer) of the three raw-byte targets; oracle = exception-type / alert / closed / non-resumable / no-spin / bounded-memory clauses",
          "Every handshake message of 12 honest handshake flavours (SSLv3..TLS 1.3, RSA/DHE/ECDHE/anon/SRP, client auth, HRR, tickets, ALPN/NPN/SNI) is mutated before protection by a deviant peer (byte flips, truncation/extension with "
          "length fix-up, 1/2/3-byte field edits at any offset, zero/empty bodies, huge declared lengths, type changes, vector edge values, extension-level edits of hello messages), so encrypted phases are reached; raw byte strings hit the "
          "server first flight, the client after its hello and an established connection. The victim must return or raise a TLS/socket exception, have sent a fatal alert for locally detected violations, be closed and non-resumable, never spin, and stay within a memory bound.",
@@ -102,14 +102,15 @@ CHECKS = {
          "metamorphic property-based testing: scripted sockets / API paths / record re-framing vs the baseline run of the same seed (byte-identical wire, same outcomes)",
          "14 scenarios (handshake flavours incl. failing negotiations, client auth, HRR, SRP, tickets/NPN, followed by writes, exact reads, KeyUpdate, close) are replayed under generated schedules of per-call recv/send sizes with would-blocks and endpoint interleavings, "
          "through AsyncStateMachine, and through the blocking API in two threads; thanks to per-endpoint DRBGs the wire bytes of both directions, view vectors, delivered data and exception classes must equal the unconstrained baseline. "
-         "An on-path re-framer splits plaintext handshake records at arbitrary points / one byte per record and outcomes must not change. Extreme schedules (1 byte per call, would-block before every call) are enumerated per scenario.",
+         "An on-path re-framer splits plaintext handshake records at arbitrary points / one byte per record, and the sender's own fragmentation is varied (every recordSize 4..299, every record_size_limit 64..259): outcomes must not change. Extreme schedules (1 byte per call, would-block before every call) are enumerated per scenario.",
          "sendall() modelled as blocking-complete; wire byte-identity depends on the DRBG shim",
          "DESIGN.md §4 C14"),
  "C15": ("exploration",
-         "property-based round-trip and framing-perturbation testing over harvested and create()-generated encodings",
+         "property-based round-trip and framing-perturbation testing over harvested and create()-generated encodings, model-based testing of the codec layer, coverage-guided fuzzing (atheris/libFuzzer) of the message and extension parsers with the same oracle",
          "Well-formed encodings come from every handshake message sent in 16 real handshake flavours (harvested before protection, so encrypted-phase messages are included) and from create() with "
          "Hypothesis-drawn arguments for 18 message and 27 extension shapes. write(parse(b)) must equal b; every strict prefix, a byte appended inside or outside the outer length, and +-1 at every byte "
-         "offset must raise a decode error or be itself well-formed (byte-identical re-encoding); oversize fields must make write() raise ValueError.",
+         "offset must raise a decode error or be itself well-formed (byte-identical re-encoding); oversize fields must make write() raise ValueError. Record headers, alerts, CCS, heartbeat, session-ticket payloads and SSLv2 messages are round-tripped at value level; "
+         "sequences of Parser calls are compared with a reference reader; re-used objects must write like fresh ones; libFuzzer campaigns (selector byte + bytes) record every input the oracle rejects and the check re-judges them in-process.",
          "message dispatch by type byte is out of scope (C06); NextProtocol padding content is opaque; record-layer framing is C14/C08",
          "DESIGN.md §4 C15"),
  "C16": ("exploration",
@@ -129,7 +130,7 @@ CHECKS = {
  "C18": ("exploration",
          "model-based property testing of sequential histories + schedule-controlled concurrency (settrace scheduler with cooperative locks, generated and bounded-exhaustive schedules) + stress",
          "Sequential SessionCache histories (set/get/advance-clock/invalidate, small id alphabets so ids repeat, small maxEntries/maxAge) are compared step by step with a dictionary-with-ages model; 2-3 threads x <= 3 operations on one SessionCache, VerifierDB or Python_RSAKey run under a "
-         "scheduler that owns every line-level preemption point and lock hand-over: results must be explainable by a program-order-respecting sequential order, RSA private operations must equal pow(m, d, n); all schedules with <= 2 switches in the first 12 (thorough 20) points are enumerated for fixed 2x2 programs; "
+         "scheduler that owns every line-level preemption point and lock hand-over: results must be explainable by a program-order-respecting sequential order, RSA private operations must equal pow(m, d, n); results and a quiescent read-back must be linearizable (real-time order from a logical clock); every placement of one switch over the whole run and of two switches in the first 40 (thorough 80) points is enumerated for fixed programs; "
          "free-running stress runs check invariants only.",
          "line-level preemption under the GIL; boundary cases age == maxAge and exactly maxEntries-1 newer stores are 'either'",
          "DESIGN.md §4 C18"),
